@@ -111,6 +111,23 @@ func init() {
 									}
 								}
 							}
+						case *ast.AssignStmt:
+							// doc.F = string(<[]byte>) on a document value
+							for i, l := range x.Lhs {
+								sel, isSel := ast.Unparen(l).(*ast.SelectorExpr)
+								if !isSel || len(x.Rhs) != len(x.Lhs) {
+									continue
+								}
+								n, ok := derefType(pi.TypeOf(sel.X)).(*types.Named)
+								if !ok || !docTypes[n] {
+									continue
+								}
+								if call, isCall := ast.Unparen(x.Rhs[i]).(*ast.CallExpr); isCall && len(call.Args) == 1 {
+									if tv, has := pi.Types[call.Fun]; has && tv.IsType() && isString(tv.Type) && isBytes(pi.TypeOf(call.Args[0])) {
+										r.Fail("document:"+n.Obj().Name()+"."+sel.Sel.Name+":bytes-as-string", x.Pos(), nil, "%s.%s is assigned string(%s): the JSON checkpoints file replaces bytes that are not valid UTF-8, so the value read back differs", n.Obj().Name(), sel.Sel.Name, types.ExprString(call.Args[0]))
+									}
+								}
+							}
 						case *ast.CallExpr:
 							// []byte(doc.F) with F a string field of a document type
 							if len(x.Args) != 1 {
